@@ -1734,7 +1734,30 @@ impl Server {
             None // Unsubscribe from all
         };
         
+        let requested = channels.clone();
         let results = self.pubsub.unsubscribe(conn_id, channels)?;
+        
+        // Nothing to unsubscribe from: the client is still owed its confirmation(s)
+        if results.is_empty() {
+            let remaining = self.pubsub.get_subscription_info(conn_id)
+                .map_or(0, |info| info.channels.len() + info.patterns.len());
+            let confirmations: Vec<RespFrame> = match requested {
+                Some(chans) => chans.iter().map(|ch| format_unsubscribe_response(ch, remaining)).collect(),
+                None => vec![RespFrame::Array(Some(vec![
+                    RespFrame::from_string("unsubscribe"),
+                    RespFrame::null_bulk(),
+                    RespFrame::Integer(remaining as i64),
+                ]))],
+            };
+            self.connections.with_connection(conn_id, |conn| -> Result<()> {
+                for response in &confirmations {
+                    conn.send_frame(response)?;
+                }
+                conn.flush()?;
+                Ok(())
+            });
+            return Ok(RespFrame::NoResponse);
+        }
         
         // Send each unsubscription confirmation atomically
         self.connections.with_connection(conn_id, |conn| -> Result<()> {
@@ -1804,7 +1827,30 @@ impl Server {
             None // Unsubscribe from all patterns
         };
         
+        let requested = patterns.clone();
         let results = self.pubsub.punsubscribe(conn_id, patterns)?;
+        
+        // Nothing to unsubscribe from: the client is still owed its confirmation(s)
+        if results.is_empty() {
+            let remaining = self.pubsub.get_subscription_info(conn_id)
+                .map_or(0, |info| info.channels.len() + info.patterns.len());
+            let confirmations: Vec<RespFrame> = match requested {
+                Some(pats) => pats.iter().map(|pat| format_punsubscribe_response(pat, remaining)).collect(),
+                None => vec![RespFrame::Array(Some(vec![
+                    RespFrame::from_string("punsubscribe"),
+                    RespFrame::null_bulk(),
+                    RespFrame::Integer(remaining as i64),
+                ]))],
+            };
+            self.connections.with_connection(conn_id, |conn| -> Result<()> {
+                for response in &confirmations {
+                    conn.send_frame(response)?;
+                }
+                conn.flush()?;
+                Ok(())
+            });
+            return Ok(RespFrame::NoResponse);
+        }
         
         // Send each unsubscription confirmation atomically
         self.connections.with_connection(conn_id, |conn| -> Result<()> {
